@@ -45,6 +45,9 @@ def _case(draw, big=False):
     case["compile"] = draw(st.integers(0, 5 if not big else 2)) == 0
     case["yexp"] = [draw(st.integers(-12, 0)) for _ in range(6)]
     case["path_as_str"] = draw(st.booleans())  # TemplateLoader.render(path: Path | str)
+    # the project directory may hold an earlier rendering of the network as it was before its last reaction was added
+    # (`naunet render -f --with-pattern` again after editing): every file, the pattern file included, describes the new sources
+    case["rerender"] = len(case["reactions"]) >= 2 and draw(st.integers(0, 3)) == 0
     # compiled cases also execute the cuSPARSE kernels (host emulation, ASan/UBSan, exactly-sized device buffers) on a batch
     case["cuda"] = draw(CU.batch()) if case["compile"] else None
     return case
@@ -188,6 +191,12 @@ def check_case(case, tier):
     nontrivial = False
     with N.Scratch() as d, N.ThermalPatch(case):
         try:
+            if case.get("rerender"):
+                labels.append("rendered-into-existing-project")
+                # (the earlier state is only scenery: without the modifiers / thermal processes that may name species of the last reaction)
+                N.render(N.build_network(dict(case, reactions=case["reactions"][:-1], ode_mod=[], heating=[], cooling=[])), d, jac_pattern=True, templates="ode",
+                         path_as_str=bool(case.get("path_as_str")))
+                N.reset_naunet_state()
             net = N.build_network(case)
             projs = N.render(net, d, jac_pattern=True, templates="all" if case.get("compile") else "ode", path_as_str=bool(case.get("path_as_str")))
         except Exception as e:
